@@ -9,7 +9,7 @@ From Coq Require Import List ZArith Bool.
 Import ListNotations.
 From Zn.model Require Import CollectionsTypes Collections.
 From Zn.spec Require Import SeqSpec OMapSpec CollectionsSpec.
-From Zn.proofs Require Import CollectionsProofs.
+From Zn.proofs Require Import CollectionsProofs CollectionsJoinProofs.
 Open Scope Z_scope.
 
 (* hm_inv hm = NoDup keyOrder /\ NoDup (keys of the Go map) /\ (k in keyOrder <-> k in the Go map).
@@ -168,12 +168,34 @@ Theorem C12_find : forall l v,
                 forall k' y, (k' < k)%nat -> nth_error l k' = Some y -> val_eqb y v = false)).
 Proof. exact law_find. Qed.
 Print Assumptions C12_find.
+(* 拼接: the texts of the list joined by the separator in list order, for every list of texts and every separator; the
+   list is left as it was; a list holding anything that is not a text is refused (and left as it was) *)
+Theorem C12_join : forall strs sep,
+  arr_step true (LMethod MJoin [VStr sep]) (map VStr strs) = (Ok (VStr (join_text sep strs)), map VStr strs).
+Proof. exact law_join. Qed.
+Print Assumptions C12_join.
+Theorem C12_join_length : forall sep strs,
+  Z.of_nat (length (join_text sep strs)) =
+  Z.of_nat (length (concat strs)) + Z.of_nat (length sep) * (Z.of_nat (length strs) - 1) * (if (length strs =? 0)%nat then 0 else 1).
+Proof. exact join_text_length. Qed.
+Print Assumptions C12_join_length.
+Theorem C12_join_rejects_non_text : forall pre v post sep, (forall s, v <> VStr s) ->
+  arr_step true (LMethod MJoin [VStr sep]) (map VStr pre ++ v :: post) = (Err E_PARAM_TYPE, map VStr pre ++ v :: post).
+Proof. exact law_join_rejects. Qed.
+Print Assumptions C12_join_rejects_non_text.
+(* 左移 / 右移 on the empty list answer 空 and leave it empty *)
+Theorem C12_shift_pop_empty :
+  arr_step true (LMethod MShift []) [] = (Ok VNull, []) /\ arr_step true (LMethod MPop []) [] = (Ok VNull, []).
+Proof. exact (conj law_shift_empty law_pop_empty). Qed.
+Print Assumptions C12_shift_pop_empty.
 (* `为` is structural equality on values without NaN and without dictionaries (dictionary equality is C01/C11's) *)
 Theorem C12_equality_structural : forall a b, plain a = true -> (val_eqb a b = true <-> a = b).
 Proof. exact val_eqb_structural. Qed.
 Print Assumptions C12_equality_structural.
 
 (* ---------- non-vacuity ---------- *)
+Example C12_example_join : fst (arr_step true (LMethod MJoin [VStr [45]]) [VStr [97]; VStr [98; 99]; VStr []]) = Ok (VStr [97; 45; 98; 99; 45]).
+Proof. vm_compute. reflexivity. Qed.
 Definition n (z : Z) := VNum (NInt z).
 Definition k1 : text := [30002]. Definition k2 : text := [20057]. Definition k3 : text := [19993].
 (* the pinned insertArrayValue panics on 以A（新增：9、-10） with three elements; the repaired one inserts at the front *)
